@@ -117,9 +117,11 @@ def run_selftest(pid, root, seed, jobs=None):
                 failures.append(f"{v.name}: behaviour-preserving twin changed the verdict (new: {sorted(new)}, "
                                 f"gone: {sorted(gone)})")
     # whole-package twins: re-emitted by ast.unparse, and with every function-local variable renamed
-    from .twins import transform_tree, transform_tree_logging, transform_tree_control
+    from .twins import transform_tree, transform_tree_logging, transform_tree_control, transform_tree_temps, transform_tree_hoist
     for label, rename in (("unparse", False), ("rename-locals", True), ("logging+annotations", None),
-                          ("inverted-ifs+mirrored-comparisons", "control")):
+                          ("inverted-ifs+mirrored-comparisons", "control"),
+                          ("return-temporaries+if-statements+docstrings+unused-additions", "temps"),
+                          ("hoisted-subexpressions", "hoist")):
         tmp = tempfile.mkdtemp(prefix="tsverif-twin-")
         try:
             shutil.copytree(os.path.join(root, "torchsde"), os.path.join(tmp, "torchsde"),
@@ -128,6 +130,10 @@ def run_selftest(pid, root, seed, jobs=None):
                 transform_tree_logging(tmp)
             elif rename == "control":
                 transform_tree_control(tmp)
+            elif rename == "temps":
+                transform_tree_temps(tmp)
+            elif rename == "hoist":
+                transform_tree_hoist(tmp)
             else:
                 transform_tree(tmp, rename=rename)
             try:
